@@ -295,6 +295,9 @@ def check(ctx):
     ctx.rule("R9", "exactly one command per request also under contention: every command factory handed to the request engine builds its handler when called (a handler built before the lock is taken starts its timeout clock early, expires while waiting, and the one stale instance is re-sent on every retry) - C06.R1 builds-fresh-request borrowed")
     from . import c06 as _c06
     _c06.fresh_request_factories(ctx.borrowed("R9", "C06"), repo)
+    ctx.rule("R10", "read-back after the echo: what the facade's sensors present is what the items decode from the block as it is now, also after a unit change that leaves the temperature word untouched (C14.R9 borrowed)")
+    from .c14 import presented_value_follows_the_block
+    presented_value_follows_the_block(ctx.borrowed("R10", "C14"), repo, "R9")
     ctx.note("NOT decided: closed loop with a responding spa (the write applied, echoed and read back) - composition of C02, C04, C05.")
 
 
